@@ -579,35 +579,6 @@ def deserialize_opset_import(
     return {opset.domain: opset.version for opset in protos}
 
 
-def _parse_experimental_function_value_info_name(
-    name: str,
-) -> tuple[str, str, str] | None:
-    """Get the function domain, name and value name if the value info is for a function.
-
-    The experimental format is:
-    {function_domain}::{function_name}/{value_name}
-
-    Args:
-        name: The name stored in the value info.
-
-    Returns:
-        A tuple of the function domain, function name and value name if the value info is for a function.
-        None otherwise.
-    """
-    # The value name is free text and may itself contain the separators, and a domain may
-    # contain "/": split off the components in the order they are written, each at the
-    # first occurrence of the separator that follows it
-    function_domain, separator, function_and_value = name.partition("::")
-    if not separator:
-        return None
-    function_name, separator, value_name = function_and_value.partition("/")
-    if not separator:
-        return None
-    # NOTE: There will not be overload because overloads are introduced in ONNX IR v10, which also
-    # introduces the ValueInfoProto for functions
-    return function_domain, function_name, value_name
-
-
 def deserialize_model(proto: onnx.ModelProto) -> _core.Model:
     """Deserialize an ONNX ModelProto into an IR Model.
 
@@ -710,25 +681,28 @@ def _deserialized_experimental_value_info_for_function_ir9(
         _protocols.OperatorIdentifier,
         dict[str, onnx.ValueInfoProto],
     ] = collections.defaultdict(dict)
+    # Every component of the composite name is free text and may contain the separators
+    # itself ("::" in a domain, "/" in a function or value name), so the name is not taken
+    # apart by guessing: each "/" is tried as the end of the qualified name of a function
+    # of the model. There are no overloads in the format because they are introduced in
+    # ONNX IR v10, which also introduces the ValueInfoProto for functions
+    function_ids_by_qualified_name: collections.defaultdict[
+        str, list[_protocols.OperatorIdentifier]
+    ] = collections.defaultdict(list)
+    for function_id in functions:
+        function_ids_by_qualified_name[f"{function_id[0]}::{function_id[1]}"].append(
+            function_id
+        )
     for value_info_proto in value_info_protos:
-        if (
-            parsed := _parse_experimental_function_value_info_name(value_info_proto.name)
-        ) is None:
-            continue
-        function_domain, function_name, value_name = parsed
-        function_overload = ""
-        # TODO(justinchuby): Create a constructor for OperatorIdentifier so we don't create tuples manually
-        function_id = (function_domain, function_name, function_overload)
-        function = functions.get(function_id)
-        if function is None:
-            # Function not found
-            logger.debug(
-                "Function with ID '%s' not found in model functions. Value info '%s' will be ignored.",
-                function_id,
-                value_info_proto.name,
-            )
-            continue
-        function_value_value_info_mapping[function_id][value_name] = value_info_proto
+        composite_name = value_info_proto.name
+        for separator_index, character in enumerate(composite_name):
+            if character != "/":
+                continue
+            for function_id in function_ids_by_qualified_name.get(
+                composite_name[:separator_index], ()
+            ):
+                value_name = composite_name[separator_index + 1 :]
+                function_value_value_info_mapping[function_id][value_name] = value_info_proto
     for function_id, function in functions.items():
         for input in function.inputs:
             if input.name in function_value_value_info_mapping[function_id]:
